@@ -64,6 +64,19 @@ TECHNIQUE = "Lean 4 proof (greedy-assignment induction) + differential correspon
 # state generation
 # ----------------------------------------------------------------------------------------------
 
+def _unit_bytes(w, part) -> int:
+    """bytes of one write unit, computed independently of the partitioner's own accounting for tensors (element count x
+    element size of the piece, whatever its serializer); objects keep the partitioner's estimate (sys.getsizeof)"""
+    import math
+    import torch
+    from torchsnapshot.serialization import string_to_dtype
+    e = getattr(w.buffer_stager, "entry", None)
+    if e is not None and hasattr(e, "dtype") and hasattr(e, "shape"):
+        dt = string_to_dtype(e.dtype)
+        return math.prod(e.shape) * torch.empty((), dtype=dt).element_size()
+    return part._estimate_write_req_storage_size(w)
+
+
 def _gen_partition_case(rng, W: int) -> Dict[str, Any]:
     n = rng.randint(1, 7)
     items = []
@@ -72,9 +85,11 @@ def _gen_partition_case(rng, W: int) -> Dict[str, Any]:
                            [6, 2, 4, 1, 2, 1, 1])[0]
         name = rng.choice(["w", "b", "x/y", "p%", "emb", "0", "t"]) + str(i)
         it = {"kind": kind, "name": name, "numel": rng.choice([0, 1, 2, 3, 5, 8, 16, 33, 64, 100]),
-              "dtype": rng.choice(["float32", "float64", "int8", "int16"]), "objlen": rng.choice([0, 3, 40, 300])}
+              # complex64 travels through torch.save: its storage bytes are the tensor's, its staging cost twice that
+              "dtype": rng.choice(["float32", "float64", "int8", "int16", "complex64", "complex64"]), "objlen": rng.choice([0, 3, 40, 300])}
         if kind == "priv_tensor":
             it["per_rank"] = [rng.choice([0, 1, 4, 16, 50, 100]) for _ in range(W)]
+            it["priv_dtype"] = [rng.choice(["float32", "float32", "complex64"]) for _ in range(W)]
         if kind == "partial":
             it["absent"] = rng.randrange(W)
             it["sub"] = rng.choice(["tensor", "obj"])
@@ -102,7 +117,7 @@ def _build_state(case, rank: int):
         elif k == "rep_prim":
             sd[name] = i * 11
         elif k == "priv_tensor":
-            sd[name] = torch.full((it["per_rank"][rank],), float(rank + 1), dtype=torch.float32)
+            sd[name] = torch.full((it["per_rank"][rank],), float(rank + 1), dtype=getattr(torch, (it.get("priv_dtype") or ["float32"] * W)[rank]))
         elif k == "priv_obj":
             sd[name] = {("p", rank): "q" * (it["objlen"] + rank)}
         elif k == "partial":
@@ -253,7 +268,7 @@ def _partition_one(ctx: Ctx, case, suite="partition", report=True):
                 entries[p], wrs[p] = e, w
         new_entries, new_wrs = partition_write_reqs(entries=entries, write_reqs=wrs, pg=pgw)
         return {"flat": [(p, is_sharded(o)) for p, o in flattened.items()], "repl": sorted(repl), "entries": entries, "prims": prims,
-                "sizes": {p: [part._estimate_write_req_storage_size(w) for w in ws] for p, ws in wrs.items()},
+                "sizes": {p: [_unit_bytes(w, part) for w in ws] for p, ws in wrs.items()},
                 "new_entries": new_entries, "new_wr_paths": {p: [w.path for w in ws] for p, ws in new_wrs.items()},
                 "wr_paths": {p: [w.path for w in ws] for p, ws in wrs.items()}}
 
@@ -380,6 +395,29 @@ def _partition_one(ctx: Ctx, case, suite="partition", report=True):
             bad = _balance_problems(final, last)
             if bad and report:
                 ctx.fail("balance-bound-exceeded", bad[0], inp, {"start": start, "final": final, "last_unit": last}, suite=suite)
+            # the same bound on bytes counted independently of the partitioner's own accounting (element bytes of every
+            # tensor piece, whatever its serializer): "counting each rank's non-replicated bytes as its starting load"
+            try:
+                szs = [res[r][1]["sizes"] for r in range(W)]
+                repl_set = set(res[0][1]["repl"])
+                start_t = [sum(sum(v) for p, v in szs[r].items() if p not in repl_set) for r in range(W)]
+                unit_t = {(p, i): b for p, v in szs[0].items() if p in repl_set for i, b in enumerate(v)}
+                final_t = [start_t[r] + sum(unit_t.get((w.logical_path, w.write_req_idx), 0) for w in result[r]) for r in range(W)]
+                last_t: Dict[int, int] = {}
+                for r, lst in enumerate(result):
+                    if lst:
+                        per_path_t: Dict[str, int] = {}
+                        for w in lst:
+                            per_path_t[w.logical_path] = per_path_t.get(w.logical_path, 0) + unit_t.get((w.logical_path, w.write_req_idx), 0)
+                        last_t[r] = max(list(per_path_t.values()) + [unit_t.get((w.logical_path, w.write_req_idx), 0) for w in lst])
+                bad_t = _balance_problems(final_t, last_t)
+                if bad_t and not bad and report:
+                    ctx.fail("balance-bound-exceeded-in-bytes", bad_t[0], inp,
+                             {"start_bytes": start_t, "final_bytes": final_t, "largest_unit": last_t, "partitioner_start": start}, suite=suite)
+                if any(a != b for a, b in zip(start_t, start)):
+                    ctx.count("partition.accounting_differs_from_bytes")
+            except (KeyError, IndexError, TypeError):
+                pass
         else:
             ctx.count("partition.non-uniform-replicated-loads")
 
@@ -698,8 +736,21 @@ CORPUS = [
 ]
 
 
+PARTITION_CORPUS = [
+    # a rank whose private state is a torch.save'd (complex) tensor: its storage bytes are the element bytes, not the
+    # staging cost; three small replicated units must go to the rank that is lighter IN BYTES
+    {"W": 2, "chunk": 1000, "globs": None, "private_rank_only": False, "items": [
+        {"kind": "priv_tensor", "name": "p0", "numel": 1, "dtype": "float32", "objlen": 0, "per_rank": [50, 16], "priv_dtype": ["float32", "complex64"]},
+        {"kind": "rep_tensor", "name": "w1", "numel": 5, "dtype": "float32", "objlen": 0},
+        {"kind": "rep_tensor", "name": "w2", "numel": 5, "dtype": "float32", "objlen": 0},
+        {"kind": "rep_tensor", "name": "w3", "numel": 5, "dtype": "float32", "objlen": 0}]},
+]
+
+
 def run(ctx: Ctx):
     import torchsnapshot.partitioner as part
+    for c in PARTITION_CORPUS:
+        _partition_one(ctx, c)
     if hasattr(part, "_partition_write_loads"):
         for l0, whole, chunks in CORPUS:
             _loads_one(ctx, l0, whole, chunks, "corpus")
@@ -723,6 +774,12 @@ def run(ctx: Ctx):
             break
         case = _gen_partition_case(ctx.rng, 1 + i % 8)
         case["nobatch"] = ctx.rng.random() < 0.75
+        # this suite's oracles read the storage write log, where a torch.save'd (complex) tensor occupies its pickle, not
+        # its element bytes: keep it to raw-serialised dtypes (complex dtypes are covered by the partition suite above)
+        for it in case["items"]:
+            if it["dtype"] == "complex64":
+                it["dtype"] = "float32"
+            it.pop("priv_dtype", None)
         _take_one(ctx, case)
 
 
